@@ -22,11 +22,11 @@ RULE = ("(1) every token sequence, smallest first, over the 11 tokens { } \" , =
         "surrogates) mixed with marks, and mutated valid blocks; (3) size-scaled families of n lines / n levels: blank "
         "lines (LF, CRLF), comment-only lines, blank runs inside an entry / a value / after a block, '{'*n alone / in a "
         "value / balanced n deep in value, @comment, @string, '}'*n, quote runs, blocks unterminated at EOF, n blocks "
-        "each cut off by the next, n small entries, n duplicate keys, n strings, n fields, one very long line, '@' runs. "
+        "each cut off by the next, n small entries, n duplicate keys, n strings, n fields, one very long line, '@' runs, @string definitions referring to each other (ring of n, chain of n in both orders, self references, # concatenations) and referenced from entry fields; plus 6 small documents of such rings. "
         "distinct = distinct text; non-trivial = the text has a non-whitespace character")
-BOUND = {"quick": "all sequences of <= 5 tokens over 11 tokens (177,156); 3000 random texts of <= 200 characters; 33 families x n in {10, 100, 1000} "
+BOUND = {"quick": "all sequences of <= 5 tokens over 11 tokens (177,156); 3000 random texts of <= 200 characters; 38 families x n in {10, 100, 1000} "
                   "lines/levels; wall limit 10 s per input",
-         "thorough": "all sequences of <= 6 tokens over 11 tokens (1,948,717); 60000 random texts of <= 400 characters; 33 families x n in "
+         "thorough": "all sequences of <= 6 tokens over 11 tokens (1,948,717); 60000 random texts of <= 400 characters; 38 families x n in "
                      "{10, 100, 1000, 10^4, 10^5}; wall limit 10 s per small input, 120 s per size-scaled input"}
 
 F1 = "F1-recursion-newlines"
@@ -168,7 +168,20 @@ FAMILIES = {
     "block_starts": lambda n: "@a{" * n,
     "backslashes": lambda n: "\\" * n + "\n" + "\\{" * n,
     "commas_and_equals": lambda n: "@a{k" + ",=" * n,
+    # @string definitions given in terms of other @strings (unenclosed values), referenced from an entry field
+    "string_ring": lambda n: "".join("@string{s%d = s%d}\n" % (i, (i + 1) % n) for i in range(n)) + "@a{k, t = s0, u = s%d}\n" % (n // 2),
+    "string_chain": lambda n: "".join("@string{s%d = s%d}\n" % (i, i + 1) for i in range(n)) + "@string{s%d = \"v\"}\n@a{k, t = s0}\n" % n,
+    "string_chain_backwards": lambda n: "@string{s0 = \"v\"}\n" + "".join("@string{s%d = s%d}\n" % (i + 1, i) for i in range(n)) + "@a{k, t = s%d}\n" % n,
+    "string_self_references": lambda n: "".join("@string{s%d = s%d}\n@a{k%d, t = s%d}\n" % (i, i, i, i) for i in range(n)),
+    "string_concatenations": lambda n: "@string{a = b # a}\n@string{b = a # b}\n" + "".join("@a{k%d, t = a # b, u = b}\n" % i for i in range(n)),
 }
+# small documents with @string definitions referring to each other (rings, self reference, reference to a missing name)
+STRING_DOCS = ["@string{a = b}\n@string{b = a}\n@article{k, journal = a}\n",
+               "@string{a = a}\n@article{k, journal = a}\n",
+               "@string{a = b}\n@string{b = c}\n@string{c = a}\n@article{k, x = c, y = b, z = a, w = d}\n",
+               "@article{k, journal = a}\n@string{a = b}\n@string{b = a}\n",
+               "@string{a = b}\n@string{b = \"v\"}\n@article{k, journal = a, other = B}\n@string{B = a}\n",
+               "@string{a = b}\n@string{b = a}\n@article{k, journal = a\n@article{k2, journal = b}\n"]
 
 
 def _family_text(spec):
@@ -243,6 +256,8 @@ def generate(tier, rng):
     for text, verdict in tokens.scan(_fast, ALPHA, 5 if quick else 6):
         _PRE = (text, verdict)
         yield "C01.text", text, bool(text.strip())
+    for text in STRING_DOCS:
+        yield "C01.text", text, True
     sizes = [10, 100, 1000] if quick else [10, 100, 1000, 10 ** 4, 10 ** 5]
     for n in sizes:
         for fam in FAMILIES:
